@@ -65,3 +65,61 @@ Proof.
   - apply in_map_iff in H as (idx & <- & _). now rewrite map_length.
   - destruct H as [<-|[]]. now rewrite map_length.
 Qed.
+
+(* ---------------------------------------------------------------------------------------- *)
+(* expansion commutes with any row function                                                   *)
+Section RowFunction.
+  Variable R : Type.
+  Variable row : list sel -> R.     (* the metadata row computed from the six selected attribute objects *)
+
+  (* rows of the expanded category = per unexpanded variable, in order, the row function applied to the
+     variable's attributes specialised to each element in np.ndindex order *)
+  Theorem metadata_rows_commute g acc s acc' s' :
+    fold_left step_var g (Some (acc, s)) = Some (acc', s') -> st_delay s = [] ->
+    map row (map snd acc')
+    = map row (map snd acc)
+      ++ flat_map (fun v => if has_dims (ushape v)
+                            then map (fun idx => row (map (fun a => sel_attr a idx) (uattrs v)))
+                                     (ndindex (iter_dims (ushape v)))
+                            else [row (map keep_attr (uattrs v))]) g.
+  Proof.
+    intros H D. destruct (metadata_rows_group g acc s acc' s' H D) as (E & _).
+    rewrite E, map_app. f_equal. clear H E.
+    induction g as [|v g IH]; [reflexivity|]. cbn [flat_map]. rewrite map_app. f_equal; [|exact IH].
+    unfold rows_of, is_expanded. cbn [mem index_of]. rewrite orb_false_r.
+    destruct (has_dims (ushape v)); [now rewrite map_map | reflexivity].
+  Qed.
+End RowFunction.
+
+(* ---------------------------------------------------------------------------------------- *)
+(* instance in the vocabulary of C13's metadata model (Model/C13_metadata.v, read-only)         *)
+From Coq Require Import QArith Qcanon.
+From PV Require Model.C13_metadata.
+Module C13 := PV.Model.C13_metadata.
+
+(* attribute numbers are handed to Coq scaled by 64 *)
+Definition ext_of (a : aval) : C13.ext :=
+  match a with
+  | ANum z => C13.Fin (Q2Qc (Qmake z 64))
+  | ANaN => C13.NaN | APInf => C13.PosInf | ANInf => C13.NegInf
+  end.
+(* the cell C13's `column` puts into the metadata matrix for a numeric attribute object; None = the
+   attribute is not a number (a left-over list, an error) *)
+Definition c13_cell (x : sel) : option C13.cell :=
+  match x with SVal a => Some (C13.CLit (ext_of a)) | _ => None end.
+Definition c13_row (r : list sel) : list (option C13.cell) := map c13_cell r.
+
+(* C13's column of a size-1 Real variable declared with the finite literal q is exactly that cell *)
+Lemma c13_column_literal (d : C13.attr -> C13.decl) (a : C13.attr) (q : Qc) :
+  d a = C13.DLit (C13.LReal q) ->
+  C13.column (C13.Var C13.TReal 1 d) a = Some [C13.CLit (C13.Fin q)].
+Proof. intros H. unfold C13.column, C13.eff_decl. cbn [C13.vdecl C13.vt C13.vsize]. rewrite H. reflexivity. Qed.
+
+(* ... and the default cells of an attribute that is not given are C13's defaults *)
+Lemma c13_column_default (d : C13.attr -> C13.decl) (a : C13.attr) :
+  d a = C13.DNone ->
+  C13.column (C13.Var C13.TReal 1 d) a = Some [C13.CLit (fst (C13.default a))].
+Proof.
+  intros H. unfold C13.column, C13.eff_decl. cbn [C13.vdecl C13.vt C13.vsize]. rewrite H.
+  destruct a; reflexivity.
+Qed.
